@@ -48,6 +48,7 @@ def run(rep, prog, tier):
     rep.floor("C14-R1", "accumulator leaves examined", nleaf, 40)
     _r3(rep, prog)
     _r4(rep, prog)
+    _r5(rep, prog)
 
 
 def _merge_functions(prog):
@@ -132,6 +133,34 @@ def _r3(rep, prog):
                   "other.into_iter() feeds self.insert/entry",
                   "%s does not move the remaining entries of `other` into `self` (into_iter of other: %d, insert/entry on self: %d): buckets or aggregations present only in the other partition are dropped"
                   % (fid, len(other_iter), len(self_ins)), site=b.span)
+
+
+def _r5(rep, prog):
+    """the column block accessor is shared by all collectors of a request: fetch before read"""
+    from ..model import Ev, must_precede
+    from ..rules import must_closure, site
+    R = "C14-R5"
+    rep.rule(R, "fetch before read: AggregationsSegmentCtx::column_block_accessor is one buffer shared by every collector of the request; a collector that reads it (iter_vals / iter_docid_vals) must first have fetched its own column for the current block of documents (fetch_block*, directly or through a helper that always fetches) in the same function — otherwise it aggregates the values the previous collector fetched")
+    FETCH = set(prog.names(r"block_accessor::ColumnBlockAccessor::<T>::fetch_block\w*$"))
+    READ = set(prog.names(r"block_accessor::ColumnBlockAccessor::<T>::(iter_vals|iter_docid_vals)$"))
+    if not rep.check(bool(FETCH) and bool(READ), R, "ColumnBlockAccessor fetch / read methods", "%d / %d" % (len(FETCH), len(READ)), "cannot establish: ColumnBlockAccessor::fetch_block* / iter_vals not found"):
+        return
+    fetchers = FETCH | set(must_closure(prog, FETCH, depth=3))
+    n = 0
+    for fid in sorted(prog.bodies):
+        if not fid.startswith(("tantivy::aggregation", "<tantivy::aggregation")) or "::tests::" in fid:
+            continue
+        b = prog.bodies[fid]
+        reads = [bi for bi, t in b.calls() if (t.get("res") or t.get("f") or "") in READ]
+        if not reads:
+            continue
+        n += 1
+        fe = [Ev(bi, "term") for bi, t in b.calls() if (t.get("res") or t.get("f") or "") in fetchers]
+        bad = must_precede(b, fe, [Ev(x, "term") for x in reads]) if fe else [Ev(reads[0], "term")]
+        rep.check(not bad, R, "%s fetches before it reads the block accessor" % short(fid), "%d read(s) dominated by a fetch" % len(reads),
+                  "`%s` reads the shared column block accessor on a path on which it has not fetched its own column for the current block: it aggregates the values another collector left there" % fid,
+                  site=site(b, bad[0].b) if bad else b.span)
+    rep.floor(R, "functions reading the shared block accessor", n, 7)
 
 
 def _reachable_adts(prog):
